@@ -28,7 +28,7 @@ Fits == \A i \in DOMAIN toks : Len(toks[i]) + Over <= W
 ReadBack == Statements(Lines) = <<toks>>
 \* 2. ... and passes the line clause whenever every token fits beside the continuation markers; a token that cannot
 \*    fit is reported as "near" (it is not longer than the width) or exempt (it is)
-LinesOK == LET bad == BadLines(Lines, W, Over) IN
+LinesOK == LET bad == BadLines(Lines, W, 4) IN
            /\ Fits => bad = <<>>
            /\ \A k \in DOMAIN bad : bad[k][2] = "near"
            /\ (\A i \in DOMAIN toks : Len(toks[i]) > W \/ Len(toks[i]) + Over <= W) => bad = <<>>
@@ -45,12 +45,12 @@ DropAmpRejected == Len(Lines) > 1 => Statements(<<SubSeq(Lines[1], 1, Len(Lines[
 \* 6. joining two lines into one that exceeds the width is reported, unless a single token alone exceeds it
 Joined == <<SubSeq(Lines[1], 1, Len(Lines[1]) - Len(C0)) \o <<32>> \o SubSeq(Lines[2], Len(c1) + 1, Len(Lines[2]))>> \o SubSeq(Lines, 3, Len(Lines))
 LongRejected == (Len(Lines) > 1 /\ Len(Joined[1]) > W /\ \A i \in DOMAIN toks : Len(toks[i]) <= W)
-                   => (Statements(Joined) = <<toks>> /\ BadLines(Joined, W, Over) # <<>>)
+                   => (Statements(Joined) = <<toks>> /\ BadLines(Joined, W, 4) # <<>>)
 \* 7. a trailing comment that alone makes the line longer is exempt, and is not part of the tokens
 Cmt == <<32, 33, 32, 99, 99, 99, 99, 99, 99, 99, 99, 99, 99, 99, 99, 99>>
 Commented == SubSeq(Lines, 1, Len(Lines) - 1) \o <<Lines[Len(Lines)] \o Cmt>>
 CommentExempt == /\ Statements(Commented) = <<toks>>
-                 /\ BadLines(Commented, W, Over) = BadLines(Lines, W, Over)
+                 /\ BadLines(Commented, W, 4) = BadLines(Lines, W, 4)
 \* 8. a comment line and a blank line between continued lines do not change the reading
 Interleaved == IF Len(Lines) > 1 THEN <<Lines[1], <<32, 33, 120>>, <<>>>> \o Tail(Lines) ELSE Lines
 InterleaveAccepted == Statements(Interleaved) = <<toks>>
